@@ -13,6 +13,7 @@ type traversePreferences struct {
 	DontAutoCreate       bool // by default, we automatically create entries on the fly.
 	DontIncludeMapValues bool
 	OptionalTraverse     bool // e.g. .adf?
+	ExactKeyMatch        bool // the key is data (merge, DeeplyAssign), not a pattern: * and ? are ordinary characters
 }
 
 func splat(context Context, prefs traversePreferences) (Context, error) {
@@ -292,7 +293,7 @@ func doTraverseMap(newMatches *orderedmap.OrderedMap, node *CandidateNode, wante
 			if err != nil {
 				return err
 			}
-		} else if splat || keyMatches(key, wantedKey) {
+		} else if splat || (prefs.ExactKeyMatch && key.Value == wantedKey) || (!prefs.ExactKeyMatch && keyMatches(key, wantedKey)) {
 			log.Debug("MATCHED")
 			if prefs.IncludeMapKeys {
 				log.Debug("including key")
